@@ -80,3 +80,26 @@ pub open spec fn map_target(tb: PathKey, source: PathKey, e: PathKey) -> PathKey
 pub open spec fn copy_queued(ev: Event, t: PathKey, ino: Inode, ps: Map<PathKey, Node>) -> bool {
     ev is Queue && ev->Queue_0 is Copy && ev->Queue_0->Copy_1 == t && ps[ev->Queue_0->Copy_0].inode == ino
 }
+
+/// C12: total length of the regular files among the first `upto` items of a walk, sizes and kinds taken from the namespace `ps`
+pub open spec fn sum_sizes(ps: Map<PathKey, Node>, items: Seq<std::result::Result<walkdir::DirEntry, walkdir::Error>>, upto: int) -> nat
+    decreases upto
+{
+    if upto <= 0 { 0 } else {
+        sum_sizes(ps, items, upto - 1) + (match items[upto - 1] {
+            Ok(e) => if ps[e.pathkey()].kind == NodeKind::File { ps[e.pathkey()].size as nat } else { 0 },
+            Err(_) => 0,
+        })
+    }
+}
+/// ... and over the walks of the first `n` sources
+pub open spec fn sum_sources(ps: Map<PathKey, Node>, sources: Seq<PathBuf>, n: int) -> nat
+    decreases n
+{
+    if n <= 0 { 0 } else { sum_sources(ps, sources, n - 1) + sum_sizes(ps, walk_seq(sources[n - 1].key()), walk_seq(sources[n - 1].key()).len() as int) }
+}
+/// every entry the walks deliver was already present in the namespace `ps` (the sources are not created by the run itself)
+pub open spec fn walk_known(ps: Map<PathKey, Node>, sources: Seq<PathBuf>) -> bool {
+    forall|i: int, j: int| 0 <= i < sources.len() && 0 <= j < walk_seq(sources[i].key()).len() && (#[trigger] walk_seq(sources[i].key())[j]) is Ok
+        ==> ps.contains_key(walk_seq(sources[i].key())[j]->Ok_0.pathkey())
+}
